@@ -416,6 +416,20 @@ def oracle_classes(case, ctx):
             discs.append(D("class_differs_from_function:%s" % CLASS_OF[name], "opts=%s class %r function %r" % (opts, got, want)))
         if getattr(obj, "greater_is_better", None) is not False:
             discs.append(D("loss_direction:%s" % CLASS_OF[name], "greater_is_better=%r" % getattr(obj, "greater_is_better", None)))
+    # a scorer made from a user function returns what the function returns, in either direction
+    def _user(y_true, y_pred):
+        return float(np.sum(np.asarray(y_pred, dtype=float)) - 2.0 * np.sum(np.asarray(y_true, dtype=float)))
+
+    for gib in (False, True):
+        sc = sut(M.make_forecasting_scorer, _user, name="user", greater_is_better=gib)
+        if isinstance(sc, Raised):
+            discs.append(D("make_scorer_raised:%s" % sc.type, sc.msg))
+            continue
+        got = sut(sc, T, P)
+        if isinstance(got, Raised) or not np.isclose(float(got), _user(t, p), rtol=1e-12, atol=0.0):
+            discs.append(D("scorer_differs_from_function:greater_is_better=%s" % gib, "scorer %r function %r" % (got, _user(t, p))))
+        if getattr(sc, "greater_is_better", None) is not gib:
+            discs.append(D("scorer_direction", "declared %r, attribute %r" % (gib, getattr(sc, "greater_is_better", None))))
     return discs
 
 
